@@ -33,6 +33,7 @@ class Constraint:
     node: ast.AST
     value_text: str = ""
     facts: frozenset = frozenset()  # (text, polarity) facts holding where the refusing test is evaluated
+    from_fact: bool = False  # a conjunct that reached the refusal as a dominating branch fact, not in the test itself
 
     def show(self) -> str:
         v = self.value if self.value is not UNKNOWN else self.value_text
@@ -115,18 +116,76 @@ def _cmp(ctx, fi, left, op, right, pol, node, env) -> list[Constraint]:
     return [Constraint(norm(left), o, rv, node, norm(right))]
 
 
+class ConsList(list):
+    """The refusing tests' own atoms; `.by_fact` holds the conjuncts that reach
+    a refusal as dominating branch facts -- searched by has(), not enumerated."""
+
+    by_fact: list
+
+
 def refusal_constraints(ctx: Ctx, fi: FuncInfo, accept_return: Iterable[str] = (), env=None) -> list[Constraint]:
-    out = []
+    out = ConsList()
+    out.by_fact = []
     g = ctx.cfg(fi)
     fx = g.facts()
     for test, pol, n in ctx.refusals(fi, accept_return):
+        here = fx.get(n.id, frozenset())
         for c in atoms(ctx, fi, test, pol, env):
-            c.facts = fx.get(n.id, frozenset())
+            c.facts = here
             out.append(c)
+        # `if a and b: raise`, `if a: if b: raise` and `if not a: return ...; if b: raise`
+        # are one refusal: the conjuncts that arrive as branch facts count as conjuncts
+        for text, fpol in sorted(here):
+            fa = g.fact_ast.get(text)
+            if fa is None:
+                continue
+            for c in atoms(ctx, fi, fa, fpol, env):
+                c.facts = here
+                c.from_fact = True
+                c.node = n.ast
+                out.by_fact.append(c)
     return out
 
 
+def _aliases(subject: str | None, op: str, value: Any):
+    """Spellings of one test: truthiness of x / len(x) against 0 / x against 0."""
+    yield subject, op, value
+    if subject is None:
+        return
+    if op == "truthy":
+        yield subject, "!=", 0
+        yield f"len({subject})", "!=", 0
+        yield f"len({subject})", ">", 0
+        yield f"len({subject})", ">=", 1
+        yield f"bool({subject})", "truthy", None
+    elif op == "falsy":
+        yield subject, "==", 0
+        yield f"len({subject})", "==", 0
+        yield f"len({subject})", "<", 1
+        yield f"len({subject})", "<=", 0
+    elif op in ("==", "!=") and value == 0 and not isinstance(value, bool):
+        yield subject, "falsy" if op == "==" else "truthy", UNKNOWN
+        if subject.startswith("len(") and subject.endswith(")"):
+            yield subject[4:-1], "falsy" if op == "==" else "truthy", UNKNOWN
+    elif op in ("not in", "in") and isinstance(value, frozenset) and 0 < len(value) <= 4:
+        # x not in {a, b}  ==  x != a and x != b (conjuncts) ; handled by the caller for `in`
+        return
+
+
 def has(cons: list[Constraint], subject: str | None, op: str, value: Any = UNKNOWN, subject_contains: str | None = None) -> Constraint | None:
+    for s_, o_, v_ in _aliases(subject, op, value):
+        c = _has(cons, s_, o_, v_, subject_contains)
+        if c is not None:
+            return c
+    if op == "not in" and isinstance(value, frozenset) and 0 < len(value) <= 4 and subject is not None:
+        parts = [_has(cons, subject, "!=", v, None) for v in value]
+        if all(p is not None for p in parts):
+            return parts[0]
+    return None
+
+
+def _has(cons: list[Constraint], subject: str | None, op: str, value: Any = UNKNOWN, subject_contains: str | None = None) -> Constraint | None:
+    cons = list(cons) + list(getattr(cons, "by_fact", []))
     # the same comparison written the other way round: `dust > sats` for `sats < dust`
     if subject is not None and isinstance(value, str) and op in FLIP:
         for c in cons:
